@@ -41,6 +41,10 @@ type Program struct {
 	Procs     []*Proc     `json:"procs,omitempty"`
 	Scanners  []*Scanner  `json:"scanners,omitempty"`
 	Sources   []*Source   `json:"sources,omitempty"`
+	// PostSetKey / PostSetVal: after Run and a first round of by-name lookups the application
+	// changes this configuration key (Configure.Set) and looks every lazy component up again.
+	PostSetKey string `json:"postSetKey,omitempty"`
+	PostSetVal int    `json:"postSetVal,omitempty"`
 	// Warmup: before the container under observation is built, another container is started
 	// from the very same configuration option values (option values are reused across containers).
 	Warmup bool `json:"warmup,omitempty"`
@@ -104,7 +108,7 @@ type Point struct {
 	Returns  []string `json:"returns,omitempty"`
 	Optional bool     `json:"optional,omitempty"`
 	Quals    []string `json:"quals,omitempty"`
-	Embed    []string `json:"embed,omitempty"` // carrier chain; element starting lower-case = unexported carrier; element starting with "S" = a carrier type shared between several positions
+	Embed    []string `json:"embed,omitempty"` // carrier chain; element starting lower-case = unexported carrier; element starting with "S" = a carrier type shared between several positions; "P0" = a carrier whose type has a value-receiver Prefix() string method
 	GoField  string   `json:"goField,omitempty"`
 }
 
